@@ -111,37 +111,7 @@ func runC05(c *Ctx) {
 	R.Ob("(*Conn).handleBdat/raw payload", c.P.Pos(f.Pos()), len(bad) == 0, "chunk path may perform "+strings.Join(bad, ","))
 
 	R.Rule("R-bdat-consume", "E2 must-pass-through", "once the size argument is known every path through handleBdat consumes the declared chunk before returning (pipe copy, with discard of the remainder on a failed copy, or discard)", 2)
-	isConsume := func(in ssa.Instruction) bool {
-		cc := callCommon(in)
-		if cc == nil {
-			return false
-		}
-		g := staticCallee(cc)
-		if g == nil {
-			return false
-		}
-		if qualFuncName(g) == "io.Copy" && bi.isChunk(cc.Args[1]) {
-			return true
-		}
-		// helper that certainly consumes LimitReader(c.text.R, <its parameter k>), called with the declared size
-		if k, ok := helperConsumes(g); ok && k < len(cc.Args) && describe(cc.Args[k]) == bi.sizeDesc {
-			return true
-		}
-		return false
-	}
-	// (a declared size of zero leaves nothing to consume)
-	H := []string{`builtin:len(strings.Fields(param1)) != 0`, strings.TrimSuffix(bi.sizeDesc, "#0") + "#1 == nil", bi.sizeDesc + " != 0"}
-	res := CountPaths(f, func(in ssa.Instruction) (int, int) {
-		if isConsume(in) {
-			return 1, 1
-		}
-		return 0, 0
-	}, c.F.SkipUnder(H...), nil)
-	d := ""
-	if res.Min < 1 {
-		d = fmt.Sprintf("with a well-formed size argument the path returning at %s consumes no chunk: the declared octets stay in the command stream and are executed as commands", c.P.InstrPos(res.MinExit))
-	}
-	R.Ob("(*Conn).handleBdat/every sized path consumes the chunk", c.P.InstrPos(res.MinExit), res.Min >= 1, d)
+	obBdatConsumes(c, bi)
 	// the dispatcher hands every BDAT line to handleBdat and does not answer it itself: a refusal issued one level up
 	// (before the size is even parsed) leaves the chunk in the command stream
 	if hf := c.A.Func("(*Conn).handle"); hf != nil {
@@ -293,4 +263,42 @@ func helperConsumes(g *ssa.Function) (int, bool) {
 	})
 	helperConsumeCache[g] = res
 	return res, res >= 0
+}
+
+// obBdatConsumes (C05 R-bdat-consume, C04 R-bdat-chunk-never-commands): once the size argument is known every path
+// through handleBdat consumes the declared chunk.
+func obBdatConsumes(c *Ctx, bi *bdatInfo) {
+	R := c.R
+	f := bi.f
+	isConsume := func(in ssa.Instruction) bool {
+		cc := callCommon(in)
+		if cc == nil {
+			return false
+		}
+		g := staticCallee(cc)
+		if g == nil {
+			return false
+		}
+		if qualFuncName(g) == "io.Copy" && bi.isChunk(cc.Args[1]) {
+			return true
+		}
+		// helper that certainly consumes LimitReader(c.text.R, <its parameter k>), called with the declared size
+		if k, ok := helperConsumes(g); ok && k < len(cc.Args) && describe(cc.Args[k]) == bi.sizeDesc {
+			return true
+		}
+		return false
+	}
+	// (a declared size of zero leaves nothing to consume)
+	H := []string{`builtin:len(strings.Fields(param1)) != 0`, strings.TrimSuffix(bi.sizeDesc, "#0") + "#1 == nil", bi.sizeDesc + " != 0"}
+	res := CountPaths(f, func(in ssa.Instruction) (int, int) {
+		if isConsume(in) {
+			return 1, 1
+		}
+		return 0, 0
+	}, c.F.SkipUnder(H...), nil)
+	d := ""
+	if res.Min < 1 {
+		d = fmt.Sprintf("with a well-formed size argument the path returning at %s consumes no chunk: the declared octets stay in the command stream and are executed as commands", c.P.InstrPos(res.MinExit))
+	}
+	R.Ob("(*Conn).handleBdat/every sized path consumes the chunk", c.P.InstrPos(res.MinExit), res.Min >= 1, d)
 }
